@@ -193,6 +193,19 @@ def table : List (String × List (String × Tag)) := [
       ("os.read(self._r, 1024)", .pg)])
 ]
 
+/-- statements for which a known repair changes the text but not what the statement is in the model: (repaired text,
+    text in the table).  `if not self._locked:` tests the truthiness of the holder *task object*; the repair
+    fixes/C07-2_lock_falsy_holder.diff compares with None/False instead, which is what `Model/CoopLock.lean` models
+    (`Holder.task t` is always "taken"); with the original text the model is right only for truthy task objects. -/
+def repaired : List (String × String) :=
+  [("if self._locked is None or self._locked is False:", "if not self._locked:")]
+
+def normalize (fns : List (String × List String)) : List (String × List String) :=
+  fns.map fun (f, l) => (f, l.map fun t =>
+    match repaired.find? (·.1 = t) with
+    | some (_, orig) => orig
+    | none => t)
+
 /-- the texts only: what the translator must regenerate -/
 def texts : List (String × List String) := table.map fun (f, l) => (f, l.map (·.1))
 
